@@ -834,7 +834,14 @@ func (s *TxStore) Rollback(tx mwdb.DBTransaction, height uint64) error {
 				continue
 			}
 
-			err = putRawUnmined(nsUnmined, txHash[:], recVal)
+			// the mined record only holds the transaction's location in the block
+			// files; the pending set stores the received time and the transaction itself
+			rec.Received = rbBlock.Timestamp
+			unminedVal, err := valueUnmined(&rec)
+			if err != nil {
+				return err
+			}
+			err = putRawUnmined(nsUnmined, txHash[:], unminedVal)
 			if err != nil {
 				return err
 			}
